@@ -726,9 +726,9 @@ Proof.
     + unfold C05_proofs.requested. cbn [option_map]. f_equal. now apply expand_same.
     + exact Ll.
     + intros d Hd. apply In_nth with (d := 0%Z) in Hd as (k & Hk & <-).
-      destruct (Nl k ltac:(lia)) as (Hp & -> & _). destruct (Cs _ ltac:(lia)) as (s' & Hin & _). now exists s'.
+      destruct (Nl k ltac:(lia)) as (Hp & -> & _). rewrite Lds in Hp. destruct (Cs _ Hp) as (s' & Hin & _). now exists s'.
     + exists g. split; [exact Hg|]. rewrite Hd. split; [exact Ll|]. intros k Hk.
-      destruct (Nl k Hk) as (Hp & -> & _). destruct (Cs _ ltac:(lia)) as (s' & Hin & Hle & _).
+      destruct (Nl k Hk) as (Hp & -> & _). rewrite Lds in Hp. destruct (Cs _ Hp) as (s' & Hin & Hle & _).
       exists s'. split; [exact Hin|exact Hle].
 Qed.
 
@@ -746,7 +746,7 @@ Proof.
   unfold C05_model.preset_spec. rewrite Br. cbn [pr_npt pr_rad rad_as_T map].
   destruct (convert m [npt]) as [ds|] eqn:Ec; [|reflexivity].
   apply traverse_some in Ec as [L _]. destruct ds as [|d [|d' ds]]; cbn in L; try lia.
-  rewrite (traverse_none _ (rg_pts rg) r Hr); [reflexivity|].
+  unfold find_degrees. rewrite (traverse_none _ (rg_pts rg) r Hr); [reflexivity|].
   unfold position. cbn [count]. rewrite Hlt. reflexivity.
 Qed.
 
@@ -782,3 +782,68 @@ Proof.
 Qed.
 
 End Presets.
+
+(* ================================================================== pruned grids: degree of every radial point *)
+Section Pruned.
+Context {T : Type} (o : NumOps T).
+Variable dtab : method -> table.
+
+Lemma pruned_lookup_lemma m (rpts : list T) radius rsec dsec l :
+  degree_from_radius o dtab m rpts radius rsec dsec = Some l ->
+  length dsec = S (length rsec) /\ length l = length rpts /\
+  forall k, k < length rpts ->
+    let p := position o (map (fun s => mul o s radius) rsec) (nth k rpts (zero o)) in
+    p < length dsec /\ exists s', resolve_degree dtab m (nth p dsec 0%Z) = Some (nth k l 0%Z, s').
+Proof.
+  unfold degree_from_radius. intros H.
+  destruct (Z.eqb_spec (Z.of_nat (length dsec) - Z.of_nat (length rsec)) 1) as [E|]; [|discriminate].
+  cbn [negb] in H.
+  destruct (traverse (fun d => option_map fst (resolve_degree dtab m d)) dsec) as [md|] eqn:Em; [|discriminate].
+  apply traverse_some in Em as [Lm Nm].
+  assert (Ld : length dsec = S (length rsec)) by lia. split; [exact Ld|].
+  destruct (sector_lookup_lemma o rpts (map (fun s : T => mul o s radius) rsec) md) as (l' & Hl' & Ll & Nl).
+  { rewrite map_length. lia. }
+  rewrite Hl' in H. injection H as <-. split; [exact Ll|]. intros k Hk.
+  destruct (Nl k Hk) as (Hp & Hn & _). rewrite Lm in Hp. split; [exact Hp|].
+  specialize (Nm _ 0%Z 0%Z Hp). rewrite <- Hn in Nm.
+  destruct (resolve_degree dtab m _) as [[d' s']|]; [|discriminate]. cbn in Nm. injection Nm as <-. now exists s'.
+Qed.
+End Pruned.
+
+(* ================================================================== the instance at the real numbers *)
+From Coq Require Import Reals Lra RealField Sorted.
+
+Definition Rltb (x y : R) : bool := if Rlt_dec x y then true else false.
+Definition ROps : NumOps R := MkOps R 0%R 1%R Rplus Rmult Rminus Ropp Rltb IZR.
+
+Lemma R_ring_lemma : ring_theory (zero ROps) (one ROps) (add ROps) (mul ROps) (sub ROps) (opp ROps) eq.
+Proof. exact RTheory. Qed.
+
+(* a unit direction, rotated by an orthogonal matrix and scaled by r >= 0, lies at distance r *)
+Lemma radius_R_lemma (M : mat) (p : vec) (r : R) :
+  orthogonal ROps M -> normsq ROps p = 1%R -> (0 <= r)%R ->
+  sqrt (normsq ROps (vscale ROps (vecmat ROps p M) r)) = r /\ sqrt (normsq ROps (vscale ROps p r)) = r.
+Proof.
+  intros HM Hp Hr.
+  rewrite !(vscale_normsq ROps R_ring_lemma), (vecmat_normsq ROps R_ring_lemma M p HM), Hp.
+  cbn [mul ROps one]. rewrite Rmult_1_r. split; now apply sqrt_square.
+Qed.
+
+(* with ascending sector radii the position is the number of the sector the radius lies in *)
+Lemma position_sorted_R_lemma (rsec : list R) (r : R) : StronglySorted Rle rsec ->
+  let p := position ROps rsec r in
+  (forall j, j < p -> (nth j rsec 0 < r)%R) /\ (forall j, p <= j < length rsec -> (r <= nth j rsec 0)%R).
+Proof.
+  induction 1 as [|s t St IH Hall]; cbn zeta; [cbn; split; intros; lia|].
+  unfold position in *. cbn [count ltb ROps] in *.
+  destruct (Rltb s r) eqn:E; unfold Rltb in E; destruct (Rlt_dec s r) as [Hlt|Hge]; try discriminate; clear E.
+  - cbn zeta in IH. destruct IH as [I1 I2]. cbn [Nat.add]. split.
+    + intros [|j] Hj; cbn [nth]; [exact Hlt|]. apply I1. cbn in Hj. lia.
+    + intros [|j] Hj; cbn in Hj; [lia|]. cbn [nth]. apply I2. lia.
+  - assert (Z0 : count (fun s0 => Rltb s0 r) t = 0).
+    { clear IH St. induction Hall as [|x t Hx _ IHt]; [reflexivity|]. cbn [count]. rewrite IHt.
+      unfold Rltb. destruct (Rlt_dec x r); [lra|reflexivity]. }
+    rewrite Z0. cbn [Nat.add]. split; [intros; lia|].
+    intros [|j] Hj; cbn [nth]; [lra|]. cbn in Hj. rewrite Forall_forall in Hall.
+    assert (In (nth j t 0%R) t) by (apply nth_In; lia). specialize (Hall _ H). lra.
+Qed.
